@@ -17,6 +17,7 @@ import (
 type expected struct {
 	c      chan *Conn
 	cancel context.CancelFunc
+	done   <-chan struct{}
 }
 
 // Listener is an implementation of net.Listener that is used to accept
@@ -59,6 +60,7 @@ func (l *Listener) Expect(ctx context.Context, from jid.JID, sid string) (net.Co
 	e.c = make(chan *Conn)
 	ctx, cancel := context.WithCancel(ctx)
 	e.cancel = cancel
+	e.done = ctx.Done()
 	l.expected[key] = e
 	l.eLock.Unlock()
 
